@@ -164,8 +164,43 @@ func coordSites() []Site {
 	}
 }
 
+const k8sm = "pkg/shard/kubernetes/shardmanager.go"
+const k8sr = "pkg/shard/kubernetes/replicasmanager.go"
+
+func k8sSites() []Site {
+	cs := "shardManager.ChangeScale"
+	return []Site{
+		{Name: "scaleNoop", File: k8sm, Func: cs, Sel: "if:1:5", Params: "(isNil : Bool) (cur expect : Int)", Ret: "Bool",
+			Leaves: map[string]string{"sts.Spec.Replicas == nil": "isNil", "*sts.Spec.Replicas": "cur"}},
+		{Name: "oldOf", File: k8sm, Func: cs, Sel: "assign:old:0", Params: "(cur : Int)", Ret: "Int",
+			Leaves: map[string]string{"*sts.Spec.Replicas": "cur"}},
+		{Name: "newReplicas", File: k8sm, Func: cs, Sel: "assign:sts.Spec.Replicas:0", Params: "(expect : Int)", Ret: "Int",
+			Leaves: map[string]string{"&expect": "expect"}},
+		{Name: "pvcEnabled", File: k8sm, Func: cs, Sel: "if:3:5", Params: "(deletePVC : Bool)", Ret: "Bool",
+			Leaves: map[string]string{"s.deletePVC": "deletePVC"}},
+		{Name: "pvcInit", File: k8sm, Func: cs, Sel: "assign:i:0", Params: "(old : Int)", Ret: "Int"},
+		{Name: "pvcCond", File: k8sm, Func: cs, Sel: "for:0", Params: "(i expect : Int)", Ret: "Bool"},
+		{Name: "pvcNext", File: k8sm, Func: cs, Sel: "incdec:i:0", Params: "(i : Int)", Ret: "Int"},
+		{Name: "pvcNameFmt", File: k8sm, Func: cs, Sel: "call:fmt.Sprintf:0:0", Ret: "text"},
+		{Name: "pvcNameArg1", File: k8sm, Func: cs, Sel: "call:fmt.Sprintf:0:1", Ret: "text"},
+		{Name: "pvcNameArg2", File: k8sm, Func: cs, Sel: "call:fmt.Sprintf:0:2", Ret: "text"},
+		{Name: "pvcNameArg3", File: k8sm, Func: cs, Sel: "call:fmt.Sprintf:0:3", Ret: "text"},
+		{Name: "podNameFmt", File: k8sm, Func: "shardManager.Shards", Sel: "call:fmt.Sprintf:0:0", Ret: "text"},
+		{Name: "podNameArg1", File: k8sm, Func: "shardManager.Shards", Sel: "call:fmt.Sprintf:0:1", Ret: "text"},
+		{Name: "podNameArg2", File: k8sm, Func: "shardManager.Shards", Sel: "call:fmt.Sprintf:0:2", Ret: "text"},
+		{Name: "urlFmt", File: k8sm, Func: "shardManager.Shards", Sel: "call:fmt.Sprintf:1:0", Ret: "text"},
+		{Name: "urlArg1", File: k8sm, Func: "shardManager.Shards", Sel: "call:fmt.Sprintf:1:1", Ret: "text"},
+		{Name: "shardId", File: k8sm, Func: "shardManager.Shards", Sel: "call:shard.NewShard:0:0", Ret: "text"},
+		{Name: "shardReady", File: k8sm, Func: "shardManager.Shards", Sel: "call:shard.NewShard:0:2", Params: "(ip : Nat)", Ret: "Bool",
+			Leaves: map[string]string{"p.Status.PodIP": "ip", "\"\"": "0"}},
+		{Name: "rollingSkip", File: k8sr, Func: "ReplicasManager.Replicas", Sel: "if:1:4", Params: "(replicas updated : Int)", Ret: "Bool",
+			Leaves: map[string]string{"s.Status.Replicas": "replicas", "s.Status.UpdatedReplicas": "updated"}},
+	}
+}
+
 func modules() []Module {
 	return []Module{
+		{Path: "Kvass/Gen/K8s.lean", NS: "Kvass.Gen.K8s", Imports: []string{"Kvass.Types"}, Global: map[string]string{}, Sites: k8sSites()},
 		{Path: "Kvass/Gen/Coord.lean", NS: "Kvass.Gen", Imports: []string{"Kvass.Types"}, Global: coordGlobal, Sites: coordSites()},
 	}
 }
